@@ -272,6 +272,40 @@ def run(ck):
               "br_if copies the carried value into the target's result register before the branch is decided, and the function-level target's "
               "result register is RETURN_VALUE_LOCATION = Local(0) (set in %s): when the branch is not taken, local 0 has been overwritten" % local_results[:2], pb.loc())
 
+        # second way the speculative copy can clobber a live value: the target's result register is an ordinary pooled
+        # register. After `br_if` it sits on the providers stack (provide_existing(result)); a following `drop` consumes it
+        # and consume() returns it to the pool because no OTHER stack slot refers to it - the open block's reservation is not
+        # consulted. The next temporary is allocated in it, and the next br_if's copy (executed even if the branch is not
+        # taken) overwrites that temporary.
+        pooled = []
+        for pth in sorted(c.paths()):
+            if not re.search(r"handle_opcode$", pth):
+                continue
+            for b in c.get_all(pth):
+                g = Fn(b)
+                for (bi, t) in g.calls(r"artifact::JumpTarget::new_unknown(_loc)?$"):
+                    o = set()
+                    for a in t["args"]:
+                        o |= g.origins(a, deep=True)
+                    if has_call_origin(o, r"artifact::DynamicLocations::get$"):
+                        pooled.append(g.loc(bi))
+        cons = getfn(ck, "sc", W, W + "::artifact::ProvidersStack::consume")
+        recycles_by_stack_only = False
+        if cons:
+            ru = cons.calls(r"artifact::DynamicLocations::reuse$")
+            if ru:
+                conds = conditions_at(cons, ru[0][0])
+                names = set()
+                for (k2, nn, v) in conds:
+                    names |= set(nn)
+                recycles_by_stack_only = bool(conds) and not (names & {"backpatch", "reserved", "result", "pinned"}) and len(cons.b["inputs"]) == 1
+        ok2 = not (speculative and dst_from_target and pooled and recycles_by_stack_only)
+        ck.ob("DEFUSE", pb.path, "speculative-copy-target-not-recyclable", ok2,
+              "the register a br_if copies into before the test cannot be handed out as a temporary while the block is open" if ok2 else
+              "br_if copies into the target block's result register before the branch is decided; that register comes from the common pool (%s) and "
+              "ProvidersStack::consume recycles it as soon as no other stack slot holds it, without regard to the open block: `block (result i32) .. br_if 0; drop; <temp>; .. br_if 0` "
+              "overwrites the temporary" % pooled[:2], pb.loc())
+
     # numeric operators
     spec = json.load(open(SPEC))["instructions"]
     nn = 0
